@@ -2,7 +2,8 @@
     status, the body and the [vary] header are concerned: [CriticalRequestComponents::apply_to_response]
     (Model/Range.v: the range is cut out, [content-range] / [accept-ranges] are inserted), the
     [error::default(416, host, "Range start after end of body")] page that *replaces* the response when the
-    range starts at or after the end of the body, [Extensions::resolve_package], and the rule that a HEAD
+    range starts at or after the end of the body (never a 304: repair 9ae9b1a), the body that is dropped after a
+    1xx / 204 / 304 head (repair 89e2956), [Extensions::resolve_package], and the rule that a HEAD
     request gets no body bytes.  What [send] does besides ([content-length], [connection], the version) touches
     neither of the three and is the subject of C08 (Model/Http1Write.v).
     Definitions only. *)
@@ -35,13 +36,20 @@ Section Wire.
   (** [true]: the repaired [send], which puts the page's [vary] header on the 416 page; [false]: as it was *)
   Variable fixed : bool.
 
+  (** 1xx, 204 and 304 responses end with the head: [send] drops their body first (repair 89e2956) *)
+  Definition no_body_status (st : N) : bool := ((100 <=? st) && (st <=? 199)) || (st =? 204) || (st =? 304).
+  Definition send_body (rp : reply) : bytes := if no_body_status (rp_status rp) then [] else rp_body rp.
+
   (** [r]: the request as [send] sees it (after the Prime extensions); [san]: [sanitize_data]
-      ([None] = [Err], [Some range] = [Ok]); [rp]: what [handle_cache] returned *)
+      ([None] = [Err], [Some range] = [Ok]); [rp]: what [handle_cache] returned.
+      A 304 Not Modified is not range-sliced (repair 9ae9b1a: [if let (Ok(data), false) = (&data, not_modified)]):
+      it goes out as it is, whatever the [range] header says. *)
   Definition send_v (r : request) (san : option (option (N * N))) (rp : reply) : outcome wreply :=
-    match san with
-    | None => Ok (mkW (rp_status rp) (package r (rp_headers rp)) (rp_body rp) (rp_last_modified rp))
+    let not_modified := rp_status rp =? 304 in
+    match (if not_modified then None else san) with
+    | None => Ok (mkW (rp_status rp) (package r (rp_headers rp)) (send_body rp) (rp_last_modified rp))
     | Some rg =>
-        match apply_range true rg (rp_status rp) (rp_body rp) with
+        match apply_range true rg (rp_status rp) (send_body rp) with
         | Ok x =>
             let hs1 := match r_content_range x with
                        | Some cr => hm_insert (B "content-range") cr (rp_headers rp)
